@@ -6,6 +6,7 @@ headers (static_assert under g++), vs. integer arithmetic on the tree (Lean `Exp
 property oracle) and vs. the Lean model of the tokenizer/parser/evaluator (correspondence).
 """
 import os
+import re
 import shutil
 import subprocess
 import tempfile
@@ -322,7 +323,10 @@ def run_const_edges(chk, workdir):
 
 HOST_TEXTS = ['12', '0x10', '-0x10', '-3', '7/2', '(9-2)/2+5', '2*(3+4)', '(0-7)/2+5', '10+(1-8)/2', '010', '0010+1', '(1) << (31)', '2147483647 + 1', '65536 * 65536',
               '1 << 30', '32768 * 65535', '-0x80000000', '-0xFFFFFFFF', '-0x7FFFFFFF', '0x80000000', '0xFFFFFFFF', '-2147483648', '-0x8000000000000000',
-              '0x7FFFFFFFFFFFFFFF', '-(5)', '- 7', '+7', '- 0x80000000', '-(0x80000000)', '- 9223372036854775808', '-( 9223372036854775808 )', '-  0xFFFFFFFF']
+              '0x7FFFFFFFFFFFFFFF', '-(5)', '- 7', '+7', '- 0x80000000', '-(0x80000000)', '- 9223372036854775808', '-( 9223372036854775808 )', '-  0xFFFFFFFF',
+              # grouping: calc's shift binds tightest, the hosts' loosest (D27b); `|` chains group differently and mean the same
+              '1 << 2 + 1', '1 + 2 << 3', '16 >> 1 + 1', '2 * 3 << 1', '8 - 1 << 2', '(1 << 2) + 1', '1 << (2 + 1)', '1 | 2 | 4', '(1 | 2) | 4', '1 | 2 + 4',
+              '7 - 2 - 1', '24 / 2 / 3', '2 * (3 + 4) - 5', '-(3) + 10', '100 / 7', '(0 - 7) / 2', '7 / (0 - 2)', '(0 - 8) / 2']
 
 
 HOST_TEXTS_BIG = ['(1) << (31)', '2147483647 + 1', '65536 * 65536', '1 << 30', '32768 * 65535', '-0x80000000', '-0xFFFFFFFF', '-0x7FFFFFFF', '0x80000000', '0xFFFFFFFF',
@@ -341,7 +345,12 @@ def classify_host_text(case, detail):
     m = re.search(r'\(([^()]*)\)\s*/', text)
     if m and '-' in m.group(1):
         return 'D63'
+    model = detail.get('model') or {}
     values = detail.get('values', {})
+    if model.get('same_tree') is False and isinstance(model.get('py'), int) and values.get('python:constant') == model['py'] != values.get('calc:constant'):
+        return 'D27b'     # the host grammar groups the text differently (shift beside + - * /), exactly as the model of the host parser says
+    if model.get('prec_safe') and model.get('int32_safe') is False and values.get('python:constant') == values.get('calc:constant'):
+        return 'D63'      # same tree, but C++ `int` arithmetic leaves the range / truncates the quotient (`int32Safe` fails)
     calc = values.get('calc:constant')
     if isinstance(calc, int) and calc >= 2 ** 31 and values.get('python:constant') == calc and re.search(r'<<|\*|\+', text):
         return 'D63'      # the C++ compiler evaluates the pasted text in 32-bit int arithmetic
@@ -405,9 +414,29 @@ def run_isar_host_text(chk, workdir):
             seen['c++ raw:constant'] = 'does not compile: ' + p.stdout.decode(errors='replace')[:120]
         else:
             seen['c++ raw:constant'] = int(subprocess.run([exe + '_raw'], stdout=subprocess.PIPE, timeout=60).stdout.decode().split()[0])
-        if len(set(map(str, seen.values()))) != 1:
-            chk.property_violation(icase, {'what': 'one isar expression text denotes different integers in prophyc and its back-ends', 'values': seen},
-                                   classify_host_text)
+        # what the model of the host languages (Lemmas/ExprHost.lean: host precedence, Python's integers, C++ `int` arithmetic)
+        # predicts for this text; `C14_pasted_text_safe`: prec_safe and int32_safe => every back-end computes calc's integer
+        m = client.batch([{'op': 'prophyc_host', 'text': isar_expand(text), 'env': {}}])[0]
+        chk.corr_compared += 1
+        predicted = {}
+        if isinstance(m.get('calc'), int):
+            predicted['calc:constant'] = m['calc']
+        if isinstance(m.get('py'), int):
+            predicted['python:constant'] = m['py']
+        if isinstance(m.get('cpp'), int) and not re.match(r'\s*-?\s*\(?\s*(0[xX][0-9a-fA-F]+|[0-9]+)\s*\)?\s*\Z', text):
+            # (a lone literal is not pasted: the generators render it with a suffix / in decimal)
+            predicted['c++:constant'] = predicted['c++ raw:constant'] = m['cpp']
+        wrong = dict((k, [seen.get(k), v]) for k, v in predicted.items() if k in seen and seen[k] != v and not re.search(r'(?<![\w.])0\d', text))
+        if wrong:
+            chk.correspondence_mismatch('Expr.parseWith hostInfo / evalPy / evalCpp = what the host language computes from the pasted text',
+                                        icase, dict((k, v[0]) for k, v in wrong.items()), dict((k, v[1]) for k, v in wrong.items()))
+        if m.get('prec_safe') and m.get('int32_safe') and not re.search(r'(?<![\w.])0\d', text) and len(set(map(str, seen.values()))) != 1:
+            # inside the proved safe subset a disagreement is a violation, whatever it looks like
+            chk.property_violation(icase, {'what': 'expression text inside the safe subset (no shift beside + - * /, every value within int) denotes different '
+                                                   'integers in prophyc and its back-ends', 'values': seen})
+        elif len(set(map(str, seen.values()))) != 1:
+            chk.property_violation(icase, {'what': 'one isar expression text denotes different integers in prophyc and its back-ends', 'values': seen,
+                                           'model': m}, classify_host_text)
 
 
 def isar_expand(text):
